@@ -1417,6 +1417,30 @@ pub fn run(ctx: &Ctx) -> i32 {
         }
         pc.add(e, nt);
     });
+    // near-casings of "false": one letter replaced by a character that a case mapping (upper, lower or
+    // fold) sends onto an ASCII letter or that merely looks like one; none of them is a casing of "false"
+    let exotic = ['ſ', 'K', 'İ', 'ı', 'ß', 'ﬀ', 'ﬁ', 'ﬆ', 'Å', 'Ｆ', 'ｆ', 'ᶠ', 'ǅ', 'ẞ', 'ᴀ', 'ᴇ', 'ʟ', 'ꜱ', 'ꜰ'];
+    for c in &false_casings() {
+        let cs: Vec<char> = c.chars().collect();
+        for i in 0..cs.len() {
+            for x in exotic {
+                let mut v = cs.clone();
+                v[i] = x;
+                let s: String = v.iter().collect();
+                pc.add(4, 4);
+                for f in check_string_unary(&s) {
+                    report(f);
+                }
+                let mut w = cs.clone();
+                w.insert(i, x);
+                let s: String = w.iter().collect();
+                pc.add(4, 4);
+                for f in check_string_unary(&s) {
+                    report(f);
+                }
+            }
+        }
+    }
     // every casing of "false" with short affixes
     let affixes = ["", " ", "0", "f", "é", "E"];
     let casings = false_casings();
@@ -1439,7 +1463,7 @@ pub fn run(ctx: &Ctx) -> i32 {
         }
     }
     bounds.push(format!(
-        "(c) size/to_bool: all strings len<={} over {:?} + 32 casings of \"false\" x 6 prefixes x 6 suffixes; trim_suffix: all strings len<={} x all suffixes len<={} over the same alphabet (str and String impls)",
+        "(c) size/to_bool: all strings len<={} over {:?} + 32 casings of \"false\" x 6 prefixes x 6 suffixes + every casing with one letter replaced by / preceded by one of 19 case-mapping look-alikes (long s, Kelvin sign, dotted I, ligatures, small capitals, fullwidth); trim_suffix: all strings len<={} x all suffixes len<={} over the same alphabet (str and String impls)",
         unary_len, SYMS, s_len, suf_len
     ));
     samples.push(J::obj([
